@@ -8,7 +8,7 @@ CXXSTD := -std=c++17
 WARN := -w
 GXX ?= g++
 CLANGXX ?= clang++
-COMMON := $(CXXSTD) $(WARN) -fno-exceptions -I$(INC) -Iharness
+COMMON := $(CXXSTD) $(WARN) -fno-exceptions -pthread -I$(INC) -Iharness
 SAN := -fsanitize=address,undefined -fno-sanitize=alignment,function,vptr,float-cast-overflow -fno-sanitize-recover=all -fno-omit-frame-pointer -g -O1
 
 build/headers.sha:
